@@ -106,15 +106,20 @@ Definition check_once (ops : list op) (av : list avar) (aevss : list (list aeven
   list_eqb (list_eqb aevent_eqb) (map project impl) (map (filter not_abandon) aevss) &&
   (* every constructor / call / destructor ran at an address satisfying the callable's alignment *)
   forallb (forallb ev_aligned) impl && (nth 13 fin 1 =? 0) &&
+  (* the callable's bytes were intact whenever it was copied/moved from, invoked or destroyed (nth 14 = corrupt), and
+     no callable was placed in a OnceFunction variable outside its 56-byte buf_ (nth 15 = out of bounds) *)
+  (nth 14 fin 1 =? 0) && (nth 15 fin 1 =? 0) &&
   (* no lifetime misuse; what is left alive = callables still owned + abandoned ones *)
   forallb (Z.eqb 0) (firstn 5 (skipn 8 fin)) &&
   (nth 6 fin (-1) =? Z.of_nat (length (owned av)) + Z.of_nat (length (abandoned (concat aevss)))) &&
   (nth 0 fin 0 + nth 1 fin 0 + nth 2 fin 0 - nth 5 fin 0 =? nth 6 fin (-1)).
 
-(* one case: nv, operations, implementation results, callable ledger numbers (life::Ledger::line()).
+(* one case: nv, operations, implementation results, callable ledger numbers (the first 14 of life::Ledger::line())
+   followed by the harness's corrupt and out-of-bounds counters.
    Verdicts: 0 = implementation = model and the property holds on the implementation's output
              1 = the property holds but the model differs from what ran
-             2 = the property fails on the implementation's output
+             2 = the property fails on the implementation's output (dispatch, events and ledger are those of the model)
+             5 = the property fails on the implementation's output AND the implementation differs from the model
              3 = the sequence is outside the protocol (driver error) *)
 Definition judge_c39 (c : Z * list Z * list Z * list Z) : Z :=
   let '(nv, opsf, implf, fin) := c in
@@ -125,12 +130,13 @@ Definition judge_c39 (c : Z * list Z * list Z * list Z) : Z :=
   | None => 3
   | Some (av, aevss) =>
       let prop := check_once ops av aevss (map snd impl) fin && Nat.eqb (length impl) (length ops) in
-      if negb prop then 2 else
-      match run oracle0 (init n) ops with
-      | None => 1
-      | Some (s, evss) =>
-          let model := combine (map dispatch_of ops) (map canon evss) in
-          let same := list_eqb (fun a b => (fst a =? fst b) && list_eqb event_eqb (snd a) (snd b)) model impl in
-          if same && zlist_eqb (ledger_obs (st_led s) ++ [0]) (firstn 14 fin) then 0 else 1
-      end
+      let agrees :=
+        match run oracle0 (init n) ops with
+        | None => false
+        | Some (s, evss) =>
+            let model := combine (map dispatch_of ops) (map canon evss) in
+            list_eqb (fun a b => (fst a =? fst b) && list_eqb event_eqb (snd a) (snd b)) model impl &&
+            zlist_eqb (ledger_obs (st_led s) ++ [0]) (firstn 14 fin)
+        end in
+      if prop then (if agrees then 0 else 1) else (if agrees then 2 else 5)
   end.
